@@ -159,6 +159,73 @@ where
     kani::cover!(true, "END: harness ran to completion");
 }
 
+/// panicking `alloc_with` vs. `try_alloc_with` when the closure itself allocates on the same arena (allowed: both take
+/// `&self`): the slot of the outer value and the block of the inner one must end up at the same offsets through both
+/// twins, with the same allocated byte count (third-round seeded change: the try_ twin evaluating the closure BEFORE it
+/// reserves the slot swaps the two blocks)
+fn twin_with_closure<St: BumpAllocatorSettings>()
+where
+    VA: BaseAllocator<St::GuaranteedAllocated>,
+{
+    let Some((x, y)) = two::<St>() else { return };
+    let (x, y) = (core::mem::ManuallyDrop::new(x), core::mem::ManuallyDrop::new(y));
+    // "when memory is available": room for the u16 slot (+ padding) and the inner byte
+    kani::assume(x.stats().remaining() >= 5);
+    let v: u16 = kani::any();
+    let w: u8 = kani::any();
+    let mut ix = 0usize;
+    let mut iy = 0usize;
+    let bx = x.alloc_with(|| {
+        ix = addr(x.alloc(w).into_raw().cast());
+        v
+    });
+    let by = y.try_alloc_with(|| {
+        iy = match y.try_alloc(w) {
+            Ok(b) => addr(b.into_raw().cast()),
+            Err(_) => 0,
+        };
+        v
+    });
+    let Ok(by) = by else {
+        panic!("C17/C07: try_alloc_with failed where alloc_with returned normally");
+    };
+    check!(*bx == v && *by == v, "C17: twins stored different values");
+    let (ax, ay) = (addr(bx.into_raw().cast()), addr(by.into_raw().cast()));
+    let (cx, cy) = (addr(x.stats().current_chunk().unwrap().chunk_start()), addr(y.stats().current_chunk().unwrap().chunk_start()));
+    check!(ix != 0 && iy != 0, "C17: the allocation inside the closure failed although memory is available");
+    check!(ix - cx == iy - cy, "C17: the block allocated inside the closure lies at different offsets through alloc_with and try_alloc_with");
+    assert_same(&observe(&x, Some(ax)), &observe(&y, Some(ay)));
+    kani::cover!(true, "END: harness ran to completion");
+}
+
+/// `try_reserve(20)` (more than the 16-byte chunk holds) through the typed handle vs. through `&dyn BumpAllocatorCore`:
+/// same chunk count, same allocated byte count, and the same offset for the next allocation
+fn reserve_typed_vs_dyn<St: BumpAllocatorSettings>()
+where
+    VA: BaseAllocator<St::GuaranteedAllocated>,
+{
+    let Some((x, y)) = two::<St>() else { return };
+    let (x, y) = (core::mem::ManuallyDrop::new(x), core::mem::ManuallyDrop::new(y));
+    set_budget(2);
+    let rx = x.try_reserve(20);
+    let dy: &dyn BumpAllocatorCore = &*y;
+    let ry = dy.try_reserve(20);
+    set_budget(0);
+    check!(rx.is_ok() == ry.is_ok(), "C17: reserve succeeded through one entry point and failed through the other");
+    kani::cover!(rx.is_ok() && x.stats().count() == 2, "reserve created a second chunk");
+    check!(x.stats().count() == y.stats().count(), "C17: reserve through the typed handle and through dyn left different chunk counts");
+    check!(x.stats().allocated() == y.stats().allocated(), "C17: reserve through the typed handle and through dyn left different allocated byte counts");
+    // the next (small) request lands at the same place
+    let v: u8 = kani::any();
+    let (bx, by) = (x.try_alloc(v), y.try_alloc(v));
+    check!(bx.is_ok() == by.is_ok(), "C17: after reserve one arena can allocate and the other cannot");
+    if let (Ok(bx), Ok(by)) = (bx, by) {
+        let (ax, ay) = (addr(bx.into_raw().cast()), addr(by.into_raw().cast()));
+        assert_same(&observe(&x, Some(ax)), &observe(&y, Some(ay)));
+    }
+    kani::cover!(true, "END: harness ran to completion");
+}
+
 /// a BumpVec backed by the typed handle vs. one backed by `&dyn BumpAllocatorCore`: the same pushes and the same
 /// shrink leave the same allocated byte count and the same offsets (settings with DEALLOCATES / SHRINKS opt-outs)
 fn vec_typed_vs_dyn<St: BumpAllocatorSettings>()
@@ -218,6 +285,10 @@ h!(entry_handles_up1, handles::<S<1, true>>());
 h!(entry_handles_down8, handles::<S<8, false>>());
 h!(entry_twin_up1, panicking_twin::<S<1, true>>());
 h!(entry_twin_down1, panicking_twin::<S<1, false>>());
+h!(entry_twin_with_closure_up1, twin_with_closure::<S<1, true>>());
+h!(entry_twin_with_closure_down1, twin_with_closure::<S<1, false>>());
+h!(entry_reserve_typed_vs_dyn_up1, reserve_typed_vs_dyn::<S<1, true>>());
+h!(entry_reserve_typed_vs_dyn_down1, reserve_typed_vs_dyn::<S<1, false>>());
 h!(entry_vec_typed_vs_dyn_up1, vec_typed_vs_dyn::<S<1, true>>());
 h!(entry_vec_typed_vs_dyn_nodealloc_up1, vec_typed_vs_dyn::<S<1, true, true, false, true>>());
 h!(entry_vec_typed_vs_dyn_nodealloc_down4, vec_typed_vs_dyn::<S<4, false, true, false, true>>());
